@@ -22,13 +22,14 @@ import (
 func TestMain(m *testing.M) { vstat.Main(m) }
 
 type Client struct {
-	Spec     hellogen.Spec `json:"spec"`
-	PeerIP   string        `json:"peer_ip"`
-	Settings [][2]uint32   `json:"settings"`  // HTTP/2 preamble of this client
-	WU       uint32        `json:"wu"`        // 0: no WINDOW_UPDATE in the preamble
-	Prio     bool          `json:"prio"`      // PRIORITY frame in the preamble
-	AltSpec  hellogen.Spec `json:"alt_spec"`  // hello used after a reconnect
-	SameAddr bool          `json:"same_addr"` // a reconnect comes from the same ip:port as the connection it replaces
+	Spec      hellogen.Spec `json:"spec"`
+	PeerIP    string        `json:"peer_ip"`
+	Settings  [][2]uint32   `json:"settings"`             // HTTP/2 preamble of this client
+	WU        uint32        `json:"wu"`                   // 0: no WINDOW_UPDATE in the preamble
+	Prio      bool          `json:"prio"`                 // PRIORITY frame in the preamble
+	AltSpec   hellogen.Spec `json:"alt_spec"`             // hello used after a reconnect
+	SameAddr  bool          `json:"same_addr"`            // a reconnect comes from the same ip:port as the connection it replaces
+	PrioFlood int           `json:"prio_flood,omitempty"` // that many PRIORITY frames ahead of everything else in the preamble
 }
 
 type Step struct {
@@ -45,6 +46,7 @@ type Script struct {
 	// are that far, and then all release at once: the handshakes complete on the server at the same instant
 	SyncConnect bool `json:"sync_connect,omitempty"`
 	SyncRounds  int  `json:"sync_rounds,omitempty"` // that many times: connect all at once, one request each, disconnect all
+	Twins       bool `json:"twins,omitempty"`       // two clients announce the same settings in a different order
 }
 
 // gateConn lets the first write (the ClientHello) through and holds every later write until the gate opens.
@@ -98,6 +100,25 @@ func gen(t *rapid.T) Script {
 		c.Prio = rapid.Bool().Draw(t, "prio")
 		c.SameAddr = rapid.Bool().Draw(t, "sameaddr")
 		s.Clients = append(s.Clients, c)
+	}
+	if rapid.Bool().Draw(t, "twins") {
+		// two clients announce the same settings in a different order (two builds of one client library): the same
+		// set, not the same fingerprint
+		a := rapid.IntRange(0, n-1).Draw(t, "twinA")
+		b := (a + 1 + rapid.IntRange(0, n-2).Draw(t, "twinB")) % n
+		base := [][2]uint32{{1, 65536}, {4, 131072}, {5, 16384}, {3, 1000}}
+		base = base[:rapid.IntRange(2, 4).Draw(t, "twinN")]
+		s.Clients[a].Settings = append([][2]uint32{}, base...)
+		s.Clients[b].Settings = nil
+		for k := len(base) - 1; k >= 0; k-- {
+			s.Clients[b].Settings = append(s.Clients[b].Settings, base[k])
+		}
+		s.Twins = true
+	}
+	if rapid.IntRange(0, 7).Draw(t, "flood") == 0 {
+		// one client opens with thousands of PRIORITY frames (a legal, if odd, preamble); its neighbours' own
+		// PRIORITY frames are theirs all the same
+		s.Clients[rapid.IntRange(0, n-1).Draw(t, "flooder")].PrioFlood = rapid.SampledFrom([]int{4096, 5000}).Draw(t, "floodN")
 	}
 	connected := make([]bool, n)
 	ns := rapid.IntRange(n, 6*n).Draw(t, "nsteps")
@@ -233,6 +254,11 @@ func exec(t *testing.T, s Script) *vstat.Violation {
 					if cl.WU != 0 {
 						cs.h2.Fr.WriteWindowUpdate(0, cl.WU)
 						cs.sent = append(cs.sent, h2fp.Frame{Kind: "window_update", Inc: cl.WU})
+					}
+					for k := 0; k < cl.PrioFlood; k++ {
+						sid := uint32(100001 + 2*k)
+						cs.h2.Fr.WritePriority(sid, xhttp2.PriorityParam{StreamDep: 0, Weight: uint8(k)})
+						cs.sent = append(cs.sent, h2fp.Frame{Kind: "priority", Stream: sid, HasPrio: true, Weight: uint8(k)})
 					}
 					if cl.Prio {
 						w := uint8(10 + st.Client)
